@@ -412,7 +412,7 @@ impl fmt::Debug for BytesMut {
 /// capacity of the encoder output model under Kani; exceeding it is a reported assertion failure.
 /// (Natively - model validation tests - the storage is a growable Vec so that the repository's
 /// own unit tests, incl. the 260 KiB publish, run against the same model code paths.)
-pub const OCAP: usize = 96;
+pub const OCAP: usize = 64;
 
 pub struct BytePages {
     #[cfg(kani)]
